@@ -644,6 +644,26 @@ func ruleP08Blank(p *Prog, r *Report) {
 	if !r.anchorFn(rule, f, "txt.(*Line).IsBlank") {
 		return
 	}
+	// the library spelling: strings.Trim/TrimLeft/TrimRight(text, " \t") == ""
+	for _, ret := range returnsOf(f) {
+		if bo, ok := strip(ret.Results[0]).(*ssa.BinOp); ok && bo.Op == token.EQL && len(returnsOf(f)) == 1 {
+			if es, isS := constString(bo.Y); isS && es == "" {
+				if tc, _ := callOf(strip(bo.X)); tc != nil && staticCallee(tc) != nil {
+					switch staticCallee(tc).String() {
+					case "strings.Trim", "strings.TrimLeft", "strings.TrimRight":
+						cut, isC := constString(tc.Common().Args[1])
+						set := map[rune]bool{}
+						for _, c := range cut {
+							set[c] = true
+						}
+						_, fld := fieldLoad(tc.Common().Args[0])
+						r.check(isC && len(set) == 2 && set[' '] && set['\t'] && fld == "Text", rule, "predicate", p.pos(f.Pos()), "blank = nothing is left after cutting spaces and tabs", fmt.Sprintf("IsBlank cuts %q from the text; blank means spaces and tabs only", cut))
+						return
+					}
+				}
+			}
+		}
+	}
 	// no helper decides: only the builtin len may be called
 	calls := ""
 	eachInstr(f, func(in ssa.Instruction) {
@@ -676,6 +696,11 @@ func ruleP08Blank(p *Prog, r *Report) {
 			if !ok {
 				okAll, why = false, "an unrecognised condition"
 				continue
+			}
+			if es, isS := constString(bo.Y); isS && es == "" && (bo.Op == token.EQL || bo.Op == token.NEQ) {
+				if _, fld := fieldLoad(bo.X); fld == "Text" {
+					continue // text == "" shortcut
+				}
 			}
 			k, isK := constInt(bo.Y)
 			if !isK {
@@ -1386,7 +1411,7 @@ func ruleP07Head(p *Prog, r *Report) {
 		}
 		return
 	}
-	text := work.Params[1]
+	text := work.Params[len(work.Params)-1]
 	n := 0
 	eachInstr(work, func(in ssa.Instruction) {
 		st, ok := in.(*ssa.Store)
@@ -1543,6 +1568,14 @@ func ruleP03ConcatPosition(p *Prog, r *Report) {
 		}
 		if c == 1 && strings.Contains(k, "countLines") {
 			hasCount = true
+		}
+		// the same number spelled directly: len(entry.Summary())
+		if lc, _ := callOf(strip(pl.leafV[k])); c == 1 && lc != nil {
+			if bi, isB := lc.Common().Value.(*ssa.Builtin); isB && bi.Name() == "len" {
+				if nm, _, _, _ := methodCall(lc.Common().Args[0]); nm == "Summary" {
+					hasCount = true
+				}
+			}
 		}
 	}
 	r.check(hasEntry && hasCount && pl.C == -1 && len(pl.Terms) == 2, rule, "last-line", p.pos(f.Pos()), "the extended line is entry line + countLines(entry) - 1", "the line that is extended is not the last line of the entry (entryLineIndex + countLines(entry) - 1): "+pl.String())
